@@ -488,7 +488,11 @@ SimStep(k) ==
                                ELSE IF \A x \in new : Canon(x) \notin boxes /\ x[1] \notin InboxVariants
                                     THEN ConnStateWrite(ns)
                                     ELSE ConnRecovery("MailboxCreated", <<"a">>)
-      [] k = "cupdate" -> \E t \in {Pick(boxes)}, n \in {PickConnName} :
+      [] k = "cupdate" -> \E sw \in {Pick(1..3)}, n0 \in {PickConnName} :
+                          \* every third connector rename only changes the letter case of a name (when there is such a mailbox)
+                          LET swappable == {b \in boxes \ {Inbox} : CaseSwap(b) # b /\ CaseSwap(b) \in ConnNames} IN
+                          \E t \in {IF sw = 1 /\ swappable # {} THEN Pick(swappable) ELSE Pick(boxes)} :
+                            LET n == IF sw = 1 /\ t \in swappable THEN CaseSwap(t) ELSE n0 IN
                             IF t = Inbox THEN ConnUpdate(t, <<Pick(InboxVariants)>>)
                             ELSE IF Steered /\ n \in Stale THEN Clean(s, {n}) ELSE ConnUpdate(t, n)
       [] k = "cdelete" -> IF boxes = {Inbox} THEN Refuse("MailboxDeleted", 0, <<>>, "err", Conn(<<>>, <<"a">>, TRUE))
